@@ -511,6 +511,10 @@ class Sym:
     def __rpow__(self, o):
         return sym_pow(o, self)
 
+    def __bool__(self):
+        # truth value of a number: non-zero (forks the path like any other branch on a symbolic condition)
+        return decide(self.e != 0)
+
     def __float__(self):
         raise HarnessError("float() of a symbolic real (module not shadowed?)")
 
